@@ -10,14 +10,16 @@ S2C: TLC exports a transition cover of the state graph of the conforming design 
 with a shortest command history); each history is executed on real pipelines (all value styles,
 pickle protocols and ways to start a run), continued to the end of an open run and followed by two
 probing runs; the recorded observations must be a behaviour of Cache.tla (Design = "allowed").
-C2S: seeded random longer histories, validated the same way.
+`start` builds a new container (Sequence / Source / alter_sequence result / bare element / Split) around
+the same elements; `restart` runs the SAME container object once more (model: rr = TRUE, Restart).
+C2S: seeded random longer histories (with restarts), validated the same way.
 """
 import random
 
 from .. import cachelib as cl
 from .. import core
 
-MUST = ("NewAny", "DropAny", "ChangeData", "Start", "Deliver", "Exhaust", "RaiseAt", "Stop", "BrokenRaise")
+MUST = ("NewAny", "DropAny", "ChangeData", "StartAny", "Restart", "Deliver", "Exhaust", "RaiseAt", "Stop", "BrokenRaise")
 PROTOCOLS = (2, 0, 4, 3)
 
 
@@ -31,17 +33,24 @@ def random_history(rnd):
     cmds = [{"cmd": "new", "a": "", "rc": [rnd.random() < 0.25 for _ in range(nc)], "c": 0}]
     rc = cmds[0]["rc"]
     ver = 1
+    started = False
     for _ in range(rnd.randint(2, 8)):
         r = rnd.random()
         if r < 0.25:
             rc = [rnd.random() < 0.3 for _ in range(nc)]
             cmds.append({"cmd": "new", "a": "", "rc": rc, "c": 0})
+            started = False
         elif r < 0.4:
             cmds.append({"cmd": "drop", "a": "", "rc": rc, "c": rnd.randint(1, nc)})
         elif r < 0.6 and ver < 9:
             ver += 1
             cmds.append({"cmd": "data", "a": "", "rc": rc, "c": 0})
-        cmds.append({"cmd": "start", "a": rnd.choice(cl.FORMS), "rc": rc, "c": 0})
+        if started and rnd.random() < 0.4:
+            # the same container object once more
+            cmds.append({"cmd": "restart", "a": "", "rc": rc, "c": 0})
+        else:
+            cmds.append({"cmd": "start", "a": rnd.choice(cl.FORMS), "rc": rc, "c": 0})
+            started = True
         n = lens[ver - 1]
         end = rnd.random()
         if end < 0.45:      # complete run
@@ -109,6 +118,8 @@ def run(ctx):
                "its snapshot at the moment it is yielded; the flow length depends on the data version")
     ctx.assume("a cache left by an interrupted run may be kept, removed, refused with an exception by a later "
                "run, or hold the complete flow - everything except a loadable proper prefix is accepted")
+    ctx.assume("a container that alter_sequence built from a filled cache (a Source without the upstream) and that is "
+               "run again after drop_cache() on that cache may only raise: it has nothing to load and nothing to recompute from")
     ctx.mc("Cache", "Cache_%s.cfg" % tag, coverage=True, must_cover=MUST)
     if ctx.thorough:
         # the design of the pinned code (values written to the final name while yielding) in the same model
@@ -127,6 +138,13 @@ def run(ctx):
                                                           for c in paths[len(paths) // 2][1]]}})
     items = [(scen, cmds, cl.STYLES[i % len(cl.STYLES)], PROTOCOLS[(i // len(cl.STYLES)) % len(PROTOCOLS)])
              for i, (scen, cmds) in enumerate(paths)]
+    # (a Split materialises its input, so the styles with ONE object mutated in place cannot pass through it:
+    # the histories with a Split use the other styles)
+    fallback = [s for s in cl.STYLES if s not in cl.ALIAS_STYLES]
+    items = [(scen, cmds, fallback[i % len(fallback)], prot)
+             if style in cl.ALIAS_STYLES and any(c["cmd"] == "start" and c["a"] == "split" for c in cmds)
+             else (scen, cmds, style, prot) for i, (scen, cmds, style, prot) in enumerate(items)]
+    ctx.extra["histories_with_restart"] = sum(1 for _s, cmds in paths if any(c["cmd"] == "restart" for c in cmds))
     # ---- code -> spec: random longer histories (validated in the same wave of TLC runs)
     rnd = random.Random(ctx.seed)
     for i in range(6000 if ctx.thorough else 400):
@@ -137,6 +155,7 @@ def run(ctx):
     return ctx.finish(
         rule="S2C: every transition of the state graph of Cache.tla (conforming design) reached by a shortest "
              "command history, executed on real Sequence / Source / alter_sequence / bare element / Split-branch pipelines with 1-2 caches, continued "
-             "to the end of the run and probed by one more run; C2S: seeded random histories (flows <= 8, <= 8 runs); "
+             "to the end of the run and probed by one more run; every reachable state with a kept container object "
+             "(Sequence, Source, hoisted Source, bare Cache, Split) continued by a run of the SAME object; C2S: seeded random histories (flows <= 8, <= 8 runs); "
              "every recorded history validated by Trace_Cache.tla; non-trivial = non-empty flow and more than 3 events",
         exhaustive=True)
